@@ -407,12 +407,13 @@ def build_doc(d, g):
 # One recorded call
 # ---------------------------------------------------------------------------------------------
 def where_of(exc):
-  """Innermost function of migrations.py on the traceback (a fact about where it was raised)."""
-  name = ""
+  """(migration function, innermost function) on the traceback: facts about where it was raised."""
+  mig, inner = "", ""
   for fr in traceback.extract_tb(exc.__traceback__):
-    if fr.filename.endswith("migrations.py"):
-      name = fr.name
-  return name
+    if fr.filename.endswith("migrations.py") and fr.name.startswith("migration") and not mig:
+      mig = fr.name
+    inner = fr.name
+  return mig, inner
 
 
 def run_doc(inp, doc):
@@ -425,7 +426,7 @@ def run_doc(inp, doc):
       obs[t] = {"rows": list(tab["ids"]), "cols": {c: [tt.tok(x) for x in vals] for c, vals in tab["cols"].items()}}
   ubase = {t: {c: record.base_type(ty) for c, ty in doc["types"][t].items()} for t in user}
   case = {"inp": {k: x for k, x in inp.items() if k != "doc"}, "v": v, "mo": doc["mo"], "tables": obs, "ubase": ubase, "user": user,
-          "ordinary": list(doc["ordinary"]), "actions": [], "exc": "", "where": "",
+          "ordinary": list(doc["ordinary"]), "actions": [], "exc": "", "where": "", "inner": "", "msg": "",
           "nrows": sum(len(t["ids"]) for t in doc["tables"].values()), "placed": doc.get("placed", 0)}
   all_tables = {t: actions.TableData(t, list(tab["ids"]), {c: list(vals) for c, vals in tab["cols"].items()})
                 for t, tab in doc["tables"].items() if not (doc["mo"] and t in doc["types"])}
@@ -433,7 +434,8 @@ def run_doc(inp, doc):
     acts = migrations.create_migrations(all_tables, doc["mo"])
   except Exception as e:    # pylint: disable=broad-except
     case["exc"] = type(e).__name__
-    case["where"] = where_of(e)
+    case["where"], case["inner"] = where_of(e)
+    case["msg"] = str(e)[:200].encode("ascii", "replace").decode()
     return case
   for a in acts:
     rep = actions.get_action_repr(a)
@@ -502,7 +504,7 @@ def main():
   for inp in json.load(open(args["inp"])):
     inp, doc = expand(inp, seed)
     cases.append(run_doc(inp, doc))
-    if args.get("dump"):
+    if args.get("dump") or cases[-1]["exc"]:
       docs[str(len(cases))] = doc
   if args.get("hyp"):
     needall = {int(k): x for k, x in hist["needall"].items()}
